@@ -200,13 +200,13 @@ class VLeaf(Leaf):
 
 class Root(HasTraits):
     v = Int(0)
-    a = Instance(HasTraits)
+    a = Instance(HasTraits, tracked=True)
     lst = List(Instance(Leaf))
     s = Str("x")
     d = Dict(Str, Instance(Leaf))
 
 
-EXPRS = ["v", "a.b", "a:b", "lst.items.b", "a.[b,c]", "d.items.b"]
+EXPRS = ["v", "a.b", "a:b", "lst.items.b", "a.[b,c]", "d.items.b", "+tracked:b"]
 from traits.observation.api import trait as _t
 # registrations that cannot be satisfied: unknown traits at different walk positions, a non-container where list items
 # are required (the text form "items" is optional by design, so the expression API is used for that one)
@@ -258,7 +258,7 @@ def history_harness(k):
             _eh.pop_exception_handler()
 
     def body(ex, errors):
-        root = Root(a=Leaf(), lst=[Leaf(), Leaf()], d={"k": VLeaf()})
+        root = Root(a=VLeaf(), lst=[Leaf(), Leaf()], d={"k": VLeaf()})
         calls = {0: 0, 1: 0}
         hs = [lambda e: calls.__setitem__(0, calls[0] + 1), lambda e: calls.__setitem__(1, calls[1] + 1)]
         # touch everything once so that lazily created instance traits / lists do not count as population changes
@@ -266,7 +266,7 @@ def history_harness(k):
         reg = {}
         trace = []
         for step in range(k):
-            op = ex.choice("op%d" % step, 9)
+            op = ex.choice("op%d" % step, 11)
             hi = ex.choice("h%d" % step, 2) if op in (0, 1) else 0
             ei = ex.choice("e%d" % step, len(EXPRS)) if op in (0, 1) else 0
             key = (hi, ei)
@@ -289,8 +289,14 @@ def history_harness(k):
                     reg[key] -= 1
                 trace.append("-%d:%s:%s" % (hi, ei, exc))
             elif op == 2:
-                root.a = Leaf()
+                root.a = VLeaf()              # equal to the object it replaces, and distinct
                 trace.append("swap_a")
+            elif op == 9:
+                root.d["k2"] = root.d["k"]    # the same object under a second key
+                trace.append("second_key")
+            elif op == 10:
+                root.d.pop("k2", None)        # one of its keys goes: the object is still in the dict
+                trace.append("drop_second_key")
             elif op == 3:
                 root.lst.append(Leaf())
                 trace.append("append")
@@ -328,7 +334,7 @@ def history_harness(k):
                 except Exception as e:
                     failed = type(e).__name__
                 trace.append("alien:%s" % failed)
-                active = any(cnt > 0 and ee in (1, 2, 4) for (hh, ee), cnt in reg.items())
+                active = any(cnt > 0 and ee in (1, 2, 4, 6) for (hh, ee), cnt in reg.items())
                 ex.check((failed is not None) == active, "hooking up an object that lacks the observed trait raises (iff something observes it)")
                 calls[0] = calls[1] = 0
                 old.b += 1
@@ -338,7 +344,7 @@ def history_harness(k):
                                       for ct in old._instance_traits().values() for x in (ct._notifiers(False) or [])),
                               "the replaced object keeps no notifier although hooking up its successor failed") and ok
                 try:
-                    root.a = Leaf()       # heal, so that the history can go on
+                    root.a = VLeaf()      # heal, so that the history can go on
                 except Exception as e:
                     ok = ex.check(False, "replacing the object whose hook-up failed works") and ok
                 if not ok:
@@ -367,7 +373,7 @@ def history_harness(k):
                     names = {5}
                 elif probe == "a.b":
                     root.a.b += 1
-                    names = {1, 2, 4}
+                    names = {1, 2, 4, 6}
                 else:
                     root.lst[-1].b += 1
                     names = {3}
@@ -405,7 +411,20 @@ def weak_harness(ex):
         expr = EXPRS[ex.choice("expr", len(EXPRS))]
         root.observe(owner.method, expr)
         wr_owner, wr_leaf, wr_root = weakref.ref(owner), weakref.ref(root.a), None
-        which = ex.choice("collect", 4)
+        which = ex.choice("collect", 5)
+        if which == 4:
+            # a plain-function handler that refers back to the observed object (a reference cycle through the notifier lists):
+            # the cycle is garbage like any other
+            def make():
+                r2 = Root(a=Leaf(), lst=[Leaf()])
+                seen = []
+                r2.observe(lambda e: seen.append(r2), expr)       # the closure cell keeps r2: a genuine cycle
+                r2.v += 1
+                return weakref.ref(r2)
+            wr2 = make()
+            gc.collect()
+            ex.check(wr2() is None, "a handler that refers to the observed object does not make it immortal (the cycle is collected)")
+            return {"which": which}
         if which == 3:
             # a change whose notification RAISES (hooking up the successor fails) must not pin the objects either
             leaf = root.a
